@@ -70,7 +70,7 @@ def _check(prop, tier, seed, replay, work, t0):
         path = vlib.save_replay(prop, "r%d" % v["trace"], {"property": prop, "invariants": names, "event": ev})
         brief = {k: ev[k] for k in ev if k not in ("held", "reopened")}
         violations.append({"replay": path, "what": "%s: %s | follower afterwards: %s" % (",".join(names), json.dumps(brief)[:600],
-                           json.dumps([{k: h[k] for k in ("hist", "left", "right", "readable", "match", "firstBad", "rdbLeft", "rdbSize", "rdbRead", "rdbMatch")} for h in ev.get("held", [])])[:500])})
+                           json.dumps([{k: h[k] for k in ("hist", "left", "right", "readable", "match", "firstBad", "rdbLeft", "rdbSize", "rdbRead", "rdbMatch", "readerErr")} for h in ev.get("held", [])])[:900])})
     # ---- hand-over end to end: leader A (real RunLeader) feeds the target while follower B (real RunFollower) copies
     # A's cache over gRPC; A stops, B is promoted and carries on from its copy and the target's stored position
     ha = vlib.build_driver("hadrv", work)
